@@ -48,7 +48,7 @@ class C20(BaseCheck):
   REQUIRED_ANCHORS = ANCHORS
   REQUIRED_CLASSES = ('name:plain', 'name:x_', 'name:x__', 'name:_x', 'name:__x__', 'name:x_async', 'uri:tcp', 'uri:zk',
                       'uri:bad', 'result:error', 'result:later', 'inherited', 'function-name-differs', 'alias',
-                      'uri:tcp-read-again', 'kwargs:loaded-names', 'ancestors-proxied-first', 'declared:classmethod', 'declared:staticmethod', 'declared:abstractmethod', 'uri:other-parser-extended')
+                      'uri:tcp-read-again', 'kwargs:loaded-names', 'ancestors-proxied-first', 'declared:classmethod', 'declared:staticmethod', 'declared:abstractmethod', 'uri:other-parser-extended', 'another-client-used-first')
   ASSUMPTIONS = ('public method = every user method that is not a dunder name (the property quantifies over names '
                  'with leading and trailing underscores, so _x and _x_ are judged like any other); names that collide with '
                  'another method\'s _async form or with the proxy base class are not generated',)
@@ -152,6 +152,24 @@ class C20(BaseCheck):
       return out
 
     public = sorted(n for n in usable if not n.startswith('__'))
+    disp0 = None
+    if idx % 2 == 0:
+      # another client of the same interface exists in the process (another cluster behind the same Iface) and
+      # has used some of the methods first; it has its own dispatcher
+      classes.add('another-client-used-first')
+      disp0 = StubDispatcher()
+      proxy0 = proxy_cls(disp0)
+      done0 = AsyncResult()
+      done0.set('other-client')
+      disp0.script = lambda m: done0
+      for name in public:
+        for attr in (name, name + '_async'):
+          if rng.random() < 0.6 and hasattr(proxy_cls, attr):
+            try:
+              getattr(proxy0, attr)()
+            except BaseException:  # noqa: judged below, for the client under test
+              pass
+      n_calls0 = len(disp0.calls)
     shapes_used = set()
     for name in sorted(usable):
       shape, sig, level = usable[name]
@@ -246,6 +264,11 @@ class C20(BaseCheck):
         if mode.startswith('later'):
           env.advance(3.1)
     disp.script = None
+    if disp0 is not None:
+      out.obligations += 1
+      if len(disp0.calls) != n_calls0:
+        out.violate('proxy:call-reached-another-clients-dispatcher', '%d call(s) made on this client were dispatched by another '
+                    'client of the same interface: %r' % (len(disp0.calls) - n_calls0, [c[0] for c in disp0.calls[n_calls0:]][:5]), {})
 
     # ---- URIs
     if idx % 3 == 1:
